@@ -773,6 +773,7 @@ impl InstrFormat for StdHooks06 {
     }
 
     fn write_instr(&self, f: &mut BinWriter, emitter: &dyn Emitter, instr: &RawInstr) -> WriteResult {
+        crate::llir::forbid_terminal_opcode(emitter, instr.opcode)?;
         f.write_i32(instr.time)?;
         f.write_u16(instr.opcode)?;
         f.write_u16(12)?;  // this version writes argsize rather than instr size
@@ -821,6 +822,7 @@ impl InstrFormat for StdHooks10 {
     }
 
     fn write_instr(&self, f: &mut BinWriter, emitter: &dyn Emitter, instr: &RawInstr) -> WriteResult {
+        crate::llir::forbid_terminal_opcode(emitter, instr.opcode)?;
         f.write_i32(instr.time)?;
         f.write_u16(instr.opcode)?;
         f.write_u16(crate::llir::instr_header_field(emitter, "instruction size", self.instr_size(instr) as i64)?)?;
